@@ -114,6 +114,11 @@ class FakeWriter:
         self.sess._on_write(bytes(data))
 
     async def drain(self):
+        # a slow client: every write is acknowledged only after `stall` seconds of virtual time
+        # (IMAPClientProxy.push gives up and closes the connection after 2 s)
+        st = getattr(self.sess, "stall", 0)
+        if st:
+            await asyncio.sleep(st)
         return
 
     def is_closing(self):
